@@ -240,7 +240,7 @@ reg('C07', 'model_checking',
 reg('C16', 'model_checking',
     'Breadth-first search over move/update histories (depth 2 quick, 3 '
     'thorough) on real InletBase/OutletBase objects with their compiled '
-    'IOEvaluate evaluators: 12 displacement patterns per round (whole '
+    'IOEvaluate evaluators: 14 displacement patterns per round (whole '
     'arrays, single particles; forward, backward, more than a zone length) '
     'followed by inlet.update and outlet.update with the stage active or '
     'not; 4 initial populations x 7 flow directions in 1-3 D (including '
